@@ -107,6 +107,8 @@ def run(tier):
         sk = c08.skeleton2(rnd2, cyc=0.6)
         sk["alt"] = i
         pj.append(dict(base, harness="VerifC05PyPI2", params=sk))
+    for i in range(24 if q else 300):
+        pj.append(dict(base, harness="VerifC05PyPI2", params=c08.directed_rootcycle(rnd2)))
     for i in range(20 if q else 300):
         sk = c08.skeleton2(rnd2, cyc=0.4)
         sk.update(warm=0, alt=i)
